@@ -22,7 +22,9 @@ from picosim import core, refcodec, registry
 
 
 def log(msg):
-    print(msg, flush=True)
+    # (the same bytes under every locale: messages quote cart contents)
+    print(str(msg).encode('ascii', 'backslashreplace').decode('ascii'),
+          flush=True)
 
 
 def run(target, rest):
